@@ -891,6 +891,27 @@ def extra_struct_cases(rng):
     yield case("matmul", [onp.ones((1, 2, 0)), onp.ones((3, 0, 2))], argnum=0, tags=["empty_bcast"])
     yield case("concatenate", [[onp.ones((0, 3)), onp.ones((2, 3))]], argnum=0, form="listfun", tags=["empty"])
     yield case("clip", [onp.ones((0, 2)), 0.0, 1.0], tags=["empty"])
+    # list functions whose pieces differ in kind / precision: the traced piece is real and a constant piece
+    # complex (and the other way round), float32 next to float64, an integer piece
+    for name, shp, kw in (("concatenate", (3,), {}), ("concatenate", (2, 3), {"axis": 1}), ("stack", (3,), {}), ("vstack", (3,), {}), ("hstack", (3,), {}), ("column_stack", (3,), {}), ("array", (2,), {}), ("row_stack", (2, 3), {})):
+        for (ka, kb) in (("r", "c"), ("c", "r"), ("r32", "r"), ("r", "r32"), ("r", "i"), ("c64", "c"), ("r32", "c")):
+            def piece(k):
+                a = A(rng, shp, "pos", k.startswith("c"))
+                if k.endswith("32"):
+                    a = a.astype(onp.float32)
+                elif k == "c64":
+                    a = a.astype(onp.complex64)
+                elif k == "i":
+                    a = onp.arange(int(onp.prod(shp))).reshape(shp)
+                return a
+
+            for argnum in (0, 1):
+                pcs = [piece(ka), piece(kb)]
+                if pcs[argnum].dtype.kind in "fc":
+                    yield case(name, [pcs], kw, argnum=argnum, form="listfun", tags=["kindmix"])
+            yield case(name, [[piece(ka), piece(kb), piece(ka)]], kw, argnum=2, form="listfun", tags=["kindmix"])
+    yield case("append", [A(rng, (3,), "pos", False), A(rng, (2,), "pos", True)], argnum=0, tags=["kindmix"])
+    yield case("append", [A(rng, (3,), "pos", True), A(rng, (2,), "pos", False)], argnum=1, tags=["kindmix"])
 
 
 def make_cases(pid, tier, seed):
